@@ -353,6 +353,9 @@ func (ex *Exec) eqVal(t types.Type, x, y Value) Value {
 	case Array:
 		y := y.(Array)
 		et := t.Underlying().(*types.Array).Elem()
+		if b, ok := et.Underlying().(*types.Basic); ok && b.Kind() == types.Uint8 && len(x) > 1 {
+			return ex.bytesEq(x, y)
+		}
 		var acc Value = true
 		for i := range x {
 			acc = ex.andVal(acc, ex.eqVal(et, x[i], y[i]))
